@@ -101,6 +101,16 @@ def enum_blocks(tier, shard, nshards):
                             yield {"op": "pair", "a": x, "b": y, "u": "block%d" % n,
                                    "layout": LAYOUT_CYCLE[i % len(LAYOUT_CYCLE)]}
                         i += 1
+                if n in (65, 129, 257) or (tier != "quick" and n in (513, 1025)):
+                    # every alignment: one member of the run plus a value beyond its end (a sparse array that goes on
+                    # after the dense one stops) - block-skipping searches must stop exactly at the end of the run
+                    for k in range(n):
+                        for b in ([a[k], a[-1] + step], [a[k]]):
+                            for x, y in ((a, b), (b, a)):
+                                if i % nshards == shard:
+                                    yield {"op": "pair", "a": x, "b": y, "u": "align%d" % n,
+                                           "layout": LAYOUT_CYCLE[i % len(LAYOUT_CYCLE)]}
+                                i += 1
                 for lst in ([a, a[::2], a[half:]], [a[:half], a[half:], a], [a[1::2], a[::2], []]):
                     if i % nshards == shard:
                         yield {"op": "many", "arrays": lst, "u": "block%d" % n}
